@@ -77,7 +77,15 @@ var propSpecs = []PropSpec{
 		BoundsT:     "preemption bound 3",
 		Outside:     "more clients; more preemptions; durations ('promptly' = at quiescence under weak fairness)",
 		Assumptions: commonAssumptions,
-		Tune:        func(cfg *Config, tier, entry string) {}},
+		Tune: func(cfg *Config, tier, entry string) {
+			if strings.HasPrefix(entry, "VC07_Deque") {
+				// the deque's wait loops signal before every wait: many more visible operations
+				cfg.Preempt = 1
+				if tier == "thorough" {
+					cfg.Preempt = 2
+				}
+			}
+		}},
 	{ID: "C12", Pkgs: []string{"ers", "erc"},
 		BoundsQ:     "trees of depth <=2 with <=4 non-nil leaves over {ers.Join(2..3), ers.Wrap, fmt.Errorf(%w), errors.Join, ParsePanic, Stack.Push chain}; leaves from {nil, two sentinels, pointer error, typed error with symbolic code}; sequential and concurrent (2 adders + reader) Collector",
 		BoundsT:     "<=5 leaves",
